@@ -376,6 +376,18 @@ def gen_range(rng, base_us, kinds):
         f2 = rng.choice([["md", d2.month, d2.day], ["ymd", d2.year, d2.month, d2.day], ["none"]])
         a = mk_ep(rng, f1, near())
         b = mk_ep(rng, f2, near())
+    elif kind == "point":            # end == start: the closed interval is a single instant (not a wrapping range)
+        r = rng.random()
+        if r < 0.5:
+            t = near()
+            a, b = mk_ep(rng, ["none"], t), mk_ep(rng, ["none"], t)
+        elif r < 0.75:
+            d1 = bday + dt.timedelta(days=rng.choice([0, 0, 1]))
+            t = near()
+            a, b = mk_ep(rng, ["ymd", d1.year, d1.month, d1.day], t), mk_ep(rng, rng.choice([["ymd", d1.year, d1.month, d1.day], ["none"]]), t)
+        else:
+            off = rng.choice([0, 10 * SEC, MINUTE])
+            a, b = mk_now(rng, off), mk_now(rng, off)
     elif kind == "now":
         a = mk_now(rng, -rng.choice([0, 5 * SEC, MINUTE, 1500001]))
         b = mk_now(rng, rng.choice([10 * SEC, MINUTE, HOUR, 30 * SEC + 1]))
@@ -428,13 +440,36 @@ def place_ops(rng, base_us, walls, kinds, exact=True):
 
 def finish_state(rng, ops, case):
     """give state ops values (always a change), add sety ops, pick the state_active expression"""
-    x = None
+    cur = {}
     for op in ops:
         if op["k"] == "state":
-            v = rng.choice([c for c in range(4) if c != x])
+            j = op.get("src", 0)
+            v = rng.choice([c for c in range(4) if c != cur.get(j)])
             op["v"] = v
-            x = v
+            cur[j] = v
     return ops
+
+
+def maybe_repeat(rng, case, p=0.3):
+    """with probability p the function repeats its trigger decorators of a kind (2-3 @event_trigger, 2 @state_trigger on
+    different entities, 2 @time_trigger); every occurrence comes from one of them (`src`)"""
+    ops = case["ops"]
+    if rng.random() >= p or any(o.get("burst") for o in ops):
+        return case
+    kinds = {o["k"] for o in ops}
+    ntrig = {}
+    if "event" in kinds:
+        ntrig["event"] = rng.choice([2, 2, 3])
+    if "state" in kinds and rng.random() < 0.6:
+        ntrig["state"] = 2
+    if "time" in kinds and rng.random() < 0.6:
+        ntrig["time"] = 2
+    for o in ops:
+        if o["k"] in ntrig:
+            o["src"] = rng.randrange(0, ntrig[o["k"]])
+    case["ntrig"] = ntrig
+    finish_state(rng, ops, None)
+    return case
 
 
 def gen_expr(rng, atoms, depth=2):
@@ -490,8 +525,8 @@ def gen_windows_case(rng, focus=None):
     specs = []
     want_sun = False
     r = rng.random()
-    kinds = (["daily", "wrap"] if r < 0.45 else ["daily", "wrap", "day", "dow", "dated"] if r < 0.8
-             else ["now", "daily"] if r < 0.9 else ["sun", "daily", "wrap"])
+    kinds = (["daily", "wrap", "daily", "wrap", "point"] if r < 0.45 else ["daily", "wrap", "day", "dow", "dated", "point"] if r < 0.8
+             else ["now", "daily", "point"] if r < 0.9 else ["sun", "daily", "wrap"])
     for _ in range(nspec):
         if rng.random() < 0.22:
             s = gen_cron(rng, base_us + rng.randrange(0, 6 * HOUR))
@@ -520,7 +555,7 @@ def gen_windows_case(rng, focus=None):
             "y_watched": False, "base_us": base_us, "ops": ops, "want_sun": want_sun, "trig_above": rng.random() < 0.2}
     if rng.random() < 0.15:
         case["sa"] = ["const", True]
-    return case
+    return maybe_repeat(rng, case, 0.25)
 
 
 HOLDS = [TICK, 2 * TICK, TICK // 2, 3 * TICK + 7, TICK // 4 + 1, 5 * TICK]
@@ -572,7 +607,7 @@ def gen_hold_case(rng, focus=None):
             "y_watched": rng.random() < 0.3, "base_us": base_us, "ops": ops, "want_sun": False, "trig_above": rng.random() < 0.2}
     if not time_ops_ok(ops, hold):
         case["ops"] = [o for o in ops if o["k"] != "time"]
-    return case
+    return maybe_repeat(rng, case, 0.35)
 
 
 def gen_state_case(rng, focus=None):
@@ -610,6 +645,8 @@ def gen_state_case(rng, focus=None):
             "base_us": base_us, "ops": ops, "want_sun": False, "trig_above": rng.random() < 0.2}
     if not time_ops_ok(ops, (ta or {}).get("hold")):
         case["ops"] = [o for o in ops if o["k"] != "time"]
+    if not state_only:
+        case = maybe_repeat(rng, case, 0.35)
     return case
 
 
@@ -703,7 +740,7 @@ def multi_occurrences(case, fn):
         for o in ops:
             if o["k"] == "sety" and o["t"] <= tp:
                 y = o["v"]
-        occs.append({"kind": "state", "mono": tp, "wall": case["base_us"] + tick_us(tp), "trig": [(0, op["v"]), (10, x)],
+        occs.append({"kind": "state", "grp": 0, "mono": tp, "wall": case["base_us"] + tick_us(tp), "trig": [(0, op["v"]), (10, x)],
                      "last": [(0, op["v"])] + ([(1, y)] if y is not None else []), "cur": [(0, op["v"]), (1, y), (2, None)],
                      "exact": False, "value": str(op["v"])})
         x = op["v"]
@@ -726,6 +763,7 @@ def occurrences(case):
     ops = case["ops"]
     x_watched = any(o["k"] in ("state", "held") for o in ops) or "state" in case.get("extra_trig", [])
     held_trig = []            # triggering values of the change whose state_hold is running
+    w = None                  # second trigger entity (pyscript.w, id 3; its .old is id 13)
     y_watched = bool(case.get("y_watched"))
     i = 0
     while i < len(ops):
@@ -744,17 +782,20 @@ def occurrences(case):
                 x = op["v"]
                 continue
             if k == "held":
-                pend.append(["state", op["t"], case["base_us"] + tick_us(op["t"]), held_trig, False])
+                pend.append(["state", op["t"], case["base_us"] + tick_us(op["t"]), held_trig, False, 0])
                 continue
             wall = op["w"] if k == "time" else case["base_us"] + tick_us(op["t"]) + n
             trig = []
-            if k == "state":
+            if k == "state" and op.get("src", 0) == 1:
+                trig = [(3, op["v"]), (13, w)]
+                w = op["v"]
+            elif k == "state":
                 trig = [(0, op["v"]), (10, x)]
                 x = op["v"]
-            pend.append([k, op["t"], wall, trig, bool(op.get("exact")) and len(group) == 1])
+            pend.append([k, op["t"], wall, trig, bool(op.get("exact")) and len(group) == 1, op.get("src", 0)])
         last = ([(0, x)] if x_watched and x is not None else []) + ([(1, y)] if y_watched and y is not None else [])
-        for k, t, wall, trig, ex in pend:
-            occs.append({"kind": k, "mono": t, "wall": wall, "trig": trig, "last": last, "cur": [(0, x), (1, y), (2, None)], "exact": ex})
+        for k, t, wall, trig, ex, grp in pend:
+            occs.append({"kind": k, "grp": grp, "mono": t, "wall": wall, "trig": trig, "last": last, "cur": [(0, x), (1, y), (2, None)], "exact": ex})
         i = j
     return occs
 
@@ -843,12 +884,12 @@ class GuardStream(Stream):
         return [o for r in res for o in r]
 
     def prelude(self, ctx, findings, witness_terms):
-        return cfg_prelude([("d_time_active_per_arg", "D15"), ("d_hold_early_update", "D70"), ("d_stale_active_vars", "D71")], findings, witness_terms, "mcase_spec_ok")
+        return cfg_prelude([("d_time_active_per_arg", "D15"), ("d_hold_early_update", "D70"), ("d_stale_active_vars", "D71"), ("d_hold_per_trigger", "D72")], findings, witness_terms, "mcase_spec_ok")
 
     @staticmethod
     def _q_occs(occs):
-        return q.lst("mk_occ %s %s %s %s %s %s %s" % (
-            KIND[o["kind"]], q.Z(o["mono"]), q.Z(o["wall"]), _q_env(o["trig"]), _q_env(o["last"]),
+        return q.lst("mk_occ %s %s %s %s %s %s %s %s" % (
+            KIND[o["kind"]], q.N(o["grp"]), q.Z(o["mono"]), q.Z(o["wall"]), _q_env(o["trig"]), _q_env(o["last"]),
             q.option(None if o["cur"][0][1] is None else q.N(o["cur"][0][1])),
             q.option(None if o["cur"][1][1] is None else q.N(o["cur"][1][1]))) for o in occs)
 
@@ -893,8 +934,8 @@ class GuardStream(Stream):
             q.option(q.lst(_q_spec(s) for s in ta["specs"]) if ta is not None else None),
             q.option(q.Z(ta["hold"]) if ta is not None and ta.get("hold") is not None else None),
             q.boolean(case.get("ta_first")))
-        qo = q.lst("mk_occ %s %s %s %s %s %s %s" % (
-            KIND[o["kind"]], q.Z(o["mono"]), q.Z(o["wall"]), _q_env(o["trig"]), _q_env(o["last"]),
+        qo = q.lst("mk_occ %s %s %s %s %s %s %s %s" % (
+            KIND[o["kind"]], q.N(o["grp"]), q.Z(o["mono"]), q.Z(o["wall"]), _q_env(o["trig"]), _q_env(o["last"]),
             q.option(None if o["cur"][0][1] is None else q.N(o["cur"][0][1])),
             q.option(None if o["cur"][1][1] is None else q.N(o["cur"][1][1]))) for o in occs)
         startup = obs.get("startup")
@@ -921,6 +962,8 @@ class GuardStream(Stream):
         ta = case.get("ta")
         kinds = "+".join(sorted({o["k"] for o in case["ops"] if o["k"] not in ("sety", "xset")}))
         sp = "none" if ta is None else "/".join(sorted({("not-" if s["neg"] else "") + ("cron" if "cron" in s else "range") for s in ta["specs"]})) or "nospec"
+        if case.get("ntrig"):
+            kinds += "*rep"
         return f"{'legacy' if case['legacy'] else 'new'}:{kinds}:{sp}:{'hold' if ta and ta.get('hold') else 'nohold'}:{'sa' if case.get('sa') else 'nosa'}"
 
     def describe(self, case, obs):
@@ -933,7 +976,8 @@ class GuardStream(Stream):
         return {"legacy": case["legacy"], "time_active": [("not " if s["neg"] else "") + s["txt"] for s in ta["specs"]] if ta else None,
                 "hold_off_s": (ta["hold"] / TICK if ta and ta.get("hold") is not None else None),
                 "state_active": case.get("sa"), "ta_first": case.get("ta_first"), "base": str(dt_of_us(case["base_us"])),
-                "occurrences": [{"kind": o["kind"], "wall": str(dt_of_us(o["wall"])), "mono_s": o["mono"] / TICK} for o in occurrences(case)],
+                "repeated_triggers": case.get("ntrig"),
+                "occurrences": [{"kind": o["kind"], "trigger_no": o["grp"], "wall": str(dt_of_us(o["wall"])), "mono_s": o["mono"] / TICK} for o in occurrences(case)],
                 "ran": obs.get("runs"), "extra": obs.get("extra"), "errors": obs.get("errors")}
 
 
